@@ -31,6 +31,7 @@ var allStrategies = []string{
 	"byz.future-height",
 	"byz.replay",
 	"byz.replay-cross-type",
+	"byz.sig-replay",
 	"byz.outsider",
 	"byz.bad-share",
 	"byz.mutate",
@@ -230,6 +231,8 @@ func (w *World) adversaryStep() bool {
 		return w.advReplay(b, h, v)
 	case "byz.replay-cross-type":
 		return w.advCrossType(b, h, v)
+	case "byz.sig-replay":
+		return w.advSigReplay(b, h, v)
 	case "byz.outsider":
 		return w.advOutsider(h, v)
 	case "byz.bad-share":
@@ -838,6 +841,54 @@ func (w *World) advBadShare(b int, h, v uint64) bool {
 		share = nil
 	}
 	return w.inject(b, SignedRefMsg(sg, KC, protocol.LEAN_HELIX_COMMIT, w.instance, h, p.Ref.V, p.Ref.Hash, share, nil), "byz.bad-share", nil) > 0
+}
+
+// byz.sig-replay: the genuine signature bytes (and seed share) a correct member produced for one message of this
+// height, replayed under ANOTHER signed header that names that member as sender: a PREPARE / COMMIT for the
+// adversary's own latest proposal (or any other known proposal) "from" every correct member whose signature was seen.
+func (w *World) advSigReplay(b int, h, v uint64) bool {
+	props := w.seenProposals(h, -1)
+	if len(props) == 0 {
+		return false
+	}
+	p := props[w.ch.Pick("sr-prop", len(props))]
+	if n := len(w.byzProposals); n > 0 && w.byzProposals[n-1].Height() == h && w.ch.Pick("sr-own", 2) == 1 {
+		p = w.byzProposals[n-1]
+	}
+	kind := []Kind{KP, KC}[w.ch.Pick("sr-kind", 2)]
+	typ := protocol.LEAN_HELIX_PREPARE
+	if kind == KC {
+		typ = protocol.LEAN_HELIX_COMMIT
+	}
+	sent := 0
+	seen := map[string]bool{}
+	for _, s := range w.sent {
+		m := s.msg
+		if m == nil || m.Height() != h || (m.Kind != KP && m.Kind != KC && m.Kind != KPP) || w.isByz(s.from) || seen[string(m.Sender.Id)] {
+			continue
+		}
+		if sameBytes(m.Ref.Hash, p.Ref.Hash) && m.Ref.V == p.Ref.V && m.Kind == kind {
+			continue // that would be the genuine message itself
+		}
+		seen[string(m.Sender.Id)] = true
+		var share []byte
+		if kind == KC {
+			// a genuine share of that member for this height, if one was seen (a share signs the height's seed only)
+			for _, c := range w.sent {
+				if c.msg != nil && c.msg.Kind == KC && c.msg.Ref.H == h && c.msg.Sender.Id.Equal(m.Sender.Id) && c.from == s.from {
+					share = c.msg.Share
+				}
+			}
+		}
+		raw := BuildRefMsg(kind, refBuilder(typ, w.instance, h, p.Ref.V, p.Ref.Hash), Sig{m.Sender.Id, m.Sender.Sig}, share, nil)
+		if w.inject(b, raw, "byz.sig-replay", nil) > 0 {
+			sent++
+		}
+		if sent >= 3 {
+			break
+		}
+	}
+	return sent > 0
 }
 
 // byz.mutate: decode a captured message, change one field or one signature, re-encode, optionally re-sign
